@@ -422,5 +422,13 @@ def write_evidence(ctx, coverage, assumptions, level="proof"):
         "known_findings_reported": ctx.known_lines,
         "notes": ctx.notes,
     }
-    with open(os.path.join(VERIF, "evidence", ctx.prop + ".json"), "w") as f:
+    # evidence/<id>.json is written only by checks run against /repo itself; a run against another tree
+    # (VERIF_REPO: seeded changes in a scratch worktree) leaves it alone
+    if os.path.realpath(REPO) == "/repo":
+        out = os.path.join(VERIF, "evidence", ctx.prop + ".json")
+    else:
+        d = os.path.join(os.environ.get("VERIF_SCRATCH", "/var/tmp"), "jfverif.evidence.other-tree")
+        os.makedirs(d, exist_ok=True)
+        out = os.path.join(d, ctx.prop + ".json")
+    with open(out, "w") as f:
         json.dump(ev, f, indent=1, default=str)
